@@ -20,4 +20,8 @@ META["C07"] = {
     "text": "Bounded symbolic model checking of totality: (a) one interpreter step (the real Step/executeOpcode and every non-signature opcode handler) from an arbitrary state satisfying the thread invariants - symbolic opcode, flag word, era, stack contents up to the stated depth/size - with every Go fault (index, slice, nil, shift, division, explicit panic, log.Fatal) as a solver obligation plus a progress (ranking) assertion; (b) Engine.Execute entry with every nil/non-nil argument combination, arbitrary input index and flags; (c) the full parse-execute-check pipeline on arbitrary short scripts. Termination for longer scripts follows from the per-step ranking by induction (paper argument).",
     "note": "Trusted: gosym SSA semantics, math/big modelled as exact arbitrary-width bit-vectors, hash functions uninterpreted. Outside the claim: stack items longer than K bytes, MUL/DIV/MOD operands longer than KM bytes, loops cut at U symbolic iterations (NUM2BIN target sizes), signature opcodes (C06), whole scripts longer than L bytes.",
 }
+META["C08"] = {
+    "text": "Bounded symbolic model checking of non-interference: an item is produced by the real DUP / OVER / PICK / TUCK / 2DUP / IFDUP / TOALTSTACK / SPLIT handlers or pushed straight from a script buffer (so the memory sharing is the real one, represented exactly by the engine's heap), then any opcode (symbolic, all flags, both eras) transforms one copy; the solver decides that every item below the operands on the data stack, every alt-stack item and the script bytes keep their values, for all item contents up to K bytes.",
+    "note": "Trusted: gosym heap/alias model (slices share cells exactly as Go slices share arrays, append growth follows runtime.growslice), math/big model. Outside the claim: items longer than K bytes, arithmetic opcodes other than a representative subset in the quick tier (all in thorough), signature opcodes, ROLL (moves items by design). Transaction serialisation unchanged by execution is checked in the C04 pipeline harness.",
+}
 NOT_APPLICABLE = {}
